@@ -153,6 +153,9 @@ func (l *Link) GetRemoteTransportUUID() uint64 { return l.TptID }
 func (l *Link) GetRemotePeer() peer.ID         { return l.Remote }
 func (l *Link) GetLocalPeer() peer.ID          { return l.Local }
 
+// Mu exposes the lock that guards Opened.
+func (l *Link) Mu() *sync.Mutex { return &l.mu }
+
 // OpenStream returns one end of a pipe; the other end is recorded in Opened.
 func (l *Link) OpenStream(opts stream.OpenOpts) (stream.Stream, error) {
 	select {
